@@ -900,7 +900,7 @@ impl Net {
 					self.crash(i, name == "reload", back, op["mon"].as_str().unwrap_or("durable"), rng);
 				} else { did = false; }
 			},
-			"proj" => { let fin = op["final"].as_bool().unwrap_or(false); for i in 0..n { self.proj_ext(i, fin, false); } if fin { self.scorer_round_trip(); } },
+			"proj" => { let fin = op["final"].as_bool().unwrap_or(false); for i in 0..n { self.proj_ext(i, fin, false); } if fin { for i in 0..n { self.ev(json!({"ev":"fin","node":i})); } self.scorer_round_trip(); } },
 			_ => { did = false; },
 		}
 		if did { self.executed += 1; } else { self.skipped += 1; let _ = before; }
@@ -984,6 +984,7 @@ impl Net {
 		chans.sort(); chans.dedup();
 		let mut mons: Vec<Vec<u8>> = Vec::new();
 		let mut mon_desc = Vec::new();
+		let mut not_landed: Vec<usize> = Vec::new();
 		for c in chans {
 			let idxs: Vec<usize> = (0..snaps.len()).filter(|x| snaps[*x].0 == c).collect();
 			let first_pending = pend.iter().filter(|p| p.0 == c).map(|p| p.1).min();
@@ -999,6 +1000,13 @@ impl Net {
 			} };
 			mon_desc.push(json!({"chan": c, "id": snaps[pick].1}));
 			mons.push(snaps[pick].2.clone());
+			// writes after the chosen one did not land: they are gone from disk
+			not_landed.extend(idxs.iter().filter(|x| **x > pick).cloned());
+		}
+		{
+			let mut sn = self.persisters[i].snapshots.lock().unwrap();
+			let mut x = 0;
+			sn.retain(|_| { x += 1; !not_landed.contains(&(x - 1)) });
 		}
 		self.persisters[i].pending.lock().unwrap().clear();
 		*self.persisters[i].in_progress.lock().unwrap() = false;
